@@ -312,7 +312,9 @@ def _run_prod(ctx, rng, cname, part, parts, thorough):
     ds = gen.boundary_scalars(n, rng, nrand=2)
     ks = gen.boundary_scalars(n, rng, nrand=2)
     encs = list(sigs.ENCODINGS)
-    msgs = [b"", b"a", b"x" * 55, b"y" * 56, b"z" * 64, bytes(range(256)) * 4]
+    msgs = [b"", b"a", b"x" * 55, b"y" * 56, b"z" * 64, bytes(range(256)) * 4,
+            # structured lengths: exact multiples of 64 KiB and 1 MiB and their neighbours (the message is hashed whole, however it is fed)
+            bytes(range(256)) * 256, bytes(range(256)) * 4096, (bytes(range(251)) * 4200)[: (1 << 20) + 1], bytes(range(256)) * 8192, bytes(range(256)) * 12288]
     work = []
     # (a) every d in B(n): one case per entry point, rotating the other dimensions
     idx = 0
